@@ -92,11 +92,14 @@ def gen_history(rng: random.Random, nops: typing.Optional[int] = None) -> list[d
         nops = len(ops) + rng.randint(0, 3)
     while len(ops) < nops:
         kind = rng.choices(['publish', 'train', 'restart', 'read', 'mount', 'train_unknown', 'prune', 'begin', 'commit',
-                            'backup', 'rebuild'], [3, 6, 1.5, 1, 0.7, 0.3, 0.5, 1.6, 2.2, 0.6, 0.6])[0]
+                            'backup', 'rebuild', 'archive'], [3, 6, 1.5, 1, 0.7, 0.3, 0.5, 1.6, 2.2, 0.6, 0.6, 0.7])[0]
         if kind == 'backup':
             ops.append({'op': 'backup'})
         elif kind == 'rebuild':
             ops.append({'op': 'rebuild', 'which': rng.randrange(64)})
+        elif kind == 'archive':
+            ops.append({'op': 'archive', 'project': rng.choice(PROJECTS[:nproj]), 'rel': rng.randint(0, 5),
+                        'gen': rng.choice([None, rng.randint(0, 5)])})
         elif kind == 'publish':
             ops.append(publish())
         elif kind == 'train':
@@ -281,7 +284,7 @@ class Run:
     def file_digests(self) -> dict[str, str]:
         out = {}
         root = os.path.join(self.box.root, 'registry')
-        for dirpath, _, files in os.walk(root):
+        for dirpath, _, files in os.walk(root, followlinks=True):
             for name in files:
                 path = os.path.join(dirpath, name)
                 with open(path, 'rb') as handle:
@@ -292,7 +295,7 @@ class Run:
         """Normalised tree fingerprint (uuids -> U) used only to count distinct outcomes."""
         items = []
         root = os.path.join(self.box.root, 'registry')
-        for dirpath, dirs, files in os.walk(root):
+        for dirpath, dirs, files in os.walk(root, followlinks=True):
             dirs.sort()
             rel = os.path.relpath(dirpath, root)
             items.append(rel + '/')
@@ -579,6 +582,30 @@ class Run:
             self.trace.append(op)
             self.stats['restarts'] += 1
             return
+        if kind == 'archive':
+            # an administrator moves a generation (or a whole release) to another volume and leaves a symbolic link behind
+            # (outside forml's API, like 'prune'): the registry reads and grows exactly as before
+            self.trace.append(op)
+            rels = sorted(self.model.get(op['project'], {}), key=vkey)
+            if not rels or self.registry == 'volatile':
+                return
+            ver = rels[op['rel'] % len(rels)]
+            gens = self.model[op['project']][ver]['gens']
+            place = os.path.join(self.box.root, 'registry', op['project'], ver)
+            if op['gen'] is not None and gens:
+                place = os.path.join(place, str(sorted(gens)[op['gen'] % len(gens)]))
+            if os.path.islink(place) or not os.path.isdir(place):
+                return
+            import shutil  # pylint: disable=import-outside-toplevel
+
+            self.narchived = getattr(self, 'narchived', 0) + 1
+            vault = os.path.join(self.box.root, 'archive', str(self.narchived))
+            os.makedirs(os.path.dirname(vault), exist_ok=True)
+            shutil.move(place, vault)
+            os.symlink(vault, place)
+            self.stats['fault:level-moved-behind-a-symlink'] += 1
+            self.verify(f'op{idx} {os.path.relpath(place, self.box.root)} was moved to another volume, a symbolic link left behind')
+            return
         if kind == 'rebuild':
             # the user rebuilds an artifact that was published earlier - in place (same file, new bytes; that is what
             # re-running a build does to dist/<project>.4ml): what the registry holds is its own copy and stays as it is
@@ -738,7 +765,11 @@ class Run:
             gen = sorted(gens)[op['gen'] % len(gens)]
             import shutil  # pylint: disable=import-outside-toplevel
 
-            shutil.rmtree(os.path.join(self.box.root, 'registry', op['project'], ver, str(gen)))
+            doomed = os.path.join(self.box.root, 'registry', op['project'], ver, str(gen))
+            if os.path.islink(doomed):
+                doomed, link = os.path.realpath(doomed), doomed
+                os.unlink(link)
+            shutil.rmtree(doomed)
             del gens[gen]
             self.digests = {k: v for k, v in self.digests.items() if not k.startswith(f'{op["project"]}/{ver}/{gen}/')}
             if self.child:  # caches of a live process may legitimately still hold the pruned item
